@@ -192,20 +192,21 @@ impl Hypercore {
                         match tree.truncate(tree_upgrade.length, tree_upgrade.fork, None)? {
                             Either::Right(value) => value,
                             Either::Left(instructions) => {
-                                let infos = storage.read_infos(&instructions).await?;
-                                match tree.truncate(
-                                    tree_upgrade.length,
-                                    tree_upgrade.fork,
-                                    Some(&infos),
-                                )? {
-                                    Either::Right(value) => value,
-                                    Either::Left(_) => {
-                                        return Err(HypercoreError::InvalidOperation {
-                                            context: format!(
-                                                "Could not truncate tree to length {}",
-                                                tree_upgrade.length
-                                            ),
-                                        });
+                                let mut instructions = instructions;
+                                let mut infos: Vec<StoreInfo> = vec![];
+                                loop {
+                                    infos.extend(
+                                        storage.read_infos(&instructions).await?.into_vec(),
+                                    );
+                                    match tree.truncate(
+                                        tree_upgrade.length,
+                                        tree_upgrade.fork,
+                                        Some(&infos),
+                                    )? {
+                                        Either::Right(value) => break value,
+                                        Either::Left(new_instructions) => {
+                                            instructions = new_instructions;
+                                        }
                                     }
                                 }
                             }
@@ -428,14 +429,17 @@ impl Hypercore {
         let clear_offset = match self.tree.byte_offset(start, None)? {
             Either::Right(value) => value,
             Either::Left(instructions) => {
-                let new_infos = self.storage.read_infos_to_vec(&instructions).await?;
-                infos.extend(new_infos);
-                match self.tree.byte_offset(start, Some(&infos))? {
-                    Either::Right(value) => value,
-                    Either::Left(_) => {
-                        return Err(HypercoreError::InvalidOperation {
-                            context: format!("Could not read offset for index {start} from tree"),
-                        });
+                // Nodes the first round took from the node cache may have been evicted by the
+                // time the tree is asked again: keep reading until it has all it asks for.
+                let mut instructions = instructions;
+                loop {
+                    let new_infos = self.storage.read_infos_to_vec(&instructions).await?;
+                    infos.extend(new_infos);
+                    match self.tree.byte_offset(start, Some(&infos))? {
+                        Either::Right(value) => break value,
+                        Either::Left(new_instructions) => {
+                            instructions = new_instructions;
+                        }
                     }
                 }
             }
@@ -512,20 +516,19 @@ impl Hypercore {
                 {
                     Either::Right(value) => value,
                     Either::Left(instructions) => {
-                        let infos = self.storage.read_infos_to_vec(&instructions).await?;
-                        match self.tree.byte_offset_in_changeset(
-                            block.index,
-                            &changeset,
-                            Some(&infos),
-                        )? {
-                            Either::Right(value) => value,
-                            Either::Left(_) => {
-                                return Err(HypercoreError::InvalidOperation {
-                                    context: format!(
-                                        "Could not read offset for index {} from tree",
-                                        block.index
-                                    ),
-                                });
+                        let mut instructions = instructions;
+                        let mut infos: Vec<StoreInfo> = vec![];
+                        loop {
+                            infos.extend(self.storage.read_infos_to_vec(&instructions).await?);
+                            match self.tree.byte_offset_in_changeset(
+                                block.index,
+                                &changeset,
+                                Some(&infos),
+                            )? {
+                                Either::Right(value) => break value,
+                                Either::Left(new_instructions) => {
+                                    instructions = new_instructions;
+                                }
                             }
                         }
                     }
@@ -710,15 +713,21 @@ impl Hypercore {
         match self.tree.verify_proof(proof, &self.key_pair.public, None)? {
             Either::Right(value) => Ok(value),
             Either::Left(instructions) => {
-                let infos = self.storage.read_infos_to_vec(&instructions).await?;
-                match self
-                    .tree
-                    .verify_proof(proof, &self.key_pair.public, Some(&infos))?
-                {
-                    Either::Right(value) => Ok(value),
-                    Either::Left(_) => Err(HypercoreError::InvalidOperation {
-                        context: "Could not verify proof from tree".to_string(),
-                    }),
+                let mut instructions = instructions;
+                let mut infos: Vec<StoreInfo> = vec![];
+                loop {
+                    infos.extend(self.storage.read_infos_to_vec(&instructions).await?);
+                    match self
+                        .tree
+                        .verify_proof(proof, &self.key_pair.public, Some(&infos))?
+                    {
+                        Either::Right(value) => {
+                            return Ok(value);
+                        }
+                        Either::Left(new_instructions) => {
+                            instructions = new_instructions;
+                        }
+                    }
                 }
             }
         }
